@@ -103,10 +103,13 @@ func runDeque(c Case) []Step {
 			if i >= len(e.ctls) {
 				continue
 			}
-			if a[0] == 'I' {
+			switch a[0] {
+			case 'I':
 				e.advance(i)
-			} else if a[0] == 'X' {
+			case 'X':
 				e.cancelIter(i)
+			case 'W':
+				e.cancelInWindow(i)
 			}
 		}
 	}
@@ -159,6 +162,7 @@ func dequeOracle(c Case, steps []Step) *fail {
 	last := make([]int64, n) // 0 = the cursor is the root
 	relaxed := make([]bool, n)
 	cancelled := make([]bool, n)
+	inWindow := make([]bool, n)
 	finished := make([]bool, n)
 	rev := func(i int) bool { return c.Vars[i] == "rev" || c.Vars[i] == "revb" }
 	blocking := func(i int) bool { return c.Vars[i] == "fwdb" || c.Vars[i] == "revb" }
@@ -231,6 +235,9 @@ func dequeOracle(c Case, steps []Step) *fail {
 			closed = true
 		case "cancel":
 			cancelled[s.I] = true
+			inWindow[s.I] = s.Ob.Kind == "inwindow"
+		case "note":
+			return &fail{"C20:harness:note", s.Ob.Msg, t}
 		case "call", "go":
 			i := s.I
 			if s.Act == "call" && !started[i] {
@@ -280,6 +287,8 @@ func dequeOracle(c Case, steps []Step) *fail {
 					return &fail{"C20:Deque.Iterator:blocked", fmt.Sprintf("non-blocking iterator %d (%s) is blocked", i, c.Vars[i]), t}
 				case closed:
 					return &fail{"C20:" + who + ":no-eof", fmt.Sprintf("iterator %d is still blocked after Close", i), t}
+				case cancelled[i] && inWindow[i]:
+					return &fail{"C20:Deque.Producer:cancel-lost", fmt.Sprintf("iterator %d (%s): its context ended between its ctx.Done() check and cond.Wait; it is still parked 10s later", i, c.Vars[i]), t}
 				case cancelled[i]:
 					return &fail{"C20:iterator:stuck-after-cancel", fmt.Sprintf("iterator %d is still blocked after its context was cancelled", i), t}
 				}
